@@ -196,6 +196,28 @@ partial def unmaskVal (lits : List Str) : Val → Val
   | .arr vs => .arr (vs.map (unmaskVal lits))
   | v => v
 
+/-- WF / WG: `rule "r" { when X == 1 then <fname>("<s>"); }` ↦ `(key, value)` of `ActionType::SetWorkflowData`; predicted when
+`s` is exactly one literal body (no `"`, no line break): the masked text is then the same for every `s` -/
+def predictWF (k : Cls) (fname : String) (s : Str) : String :=
+  let pre := "rule \"r\" { when X == 1 then " ++ fname ++ "(\""
+  let post := "\"); }"
+  showRS <| bindR (prepare (pre.toList ++ s ++ post.toList)) fun ml =>
+    match between ("rule \"".toList ++ placeholder 0 ++ (pre.toList.drop 7)) post.toList (cleanText k ml.1) with
+    | some mid =>
+      if mid.isEmpty then .ok "err"                      -- `""`: no `=`
+      else if mid == placeholder 1 then
+        match wfData k ml.2 ('"' :: mid ++ ['"']) with
+        | .ok (key, v) =>
+          let v' := match v with
+            | .arr vs => Val.arr (vs.map (unmaskVal ml.2))
+            | w => w
+          .ok s!"ok {hx key} {showVal v'}"
+        | .err => .ok "err"
+        | .panic => .panic
+        | .oof => .oof
+      else .ok "-"
+    | none => .ok "-"
+
 /-- RV / RA: `parse_value` sees the *masked* payload (classification is done on masked text) and unmasks the
 strings it returns -/
 def predictValue (k : Cls) (pre post : String) (s : Str) : R Val :=
@@ -249,7 +271,13 @@ def predict (k : Cls) (e : String) (s : Str) : String :=
     | .ok _ => "ok" | .err => "err" | .fine => "fine" | .panic => "panic" | .oof => "oof")
   | "D" => showR (fun (o : Option (List Str)) => match o with | some bs => hxList bs | none => "none") (disjParse k s)
   | "DC" => showR (fun (b : Bool) => if b then "1" else "0") (disjContainsOr k s)
-  | "G" => showR hx (grlQueryParse k s)
+  | "G" => (match grlQueryParse k s, grlQueryNums k s with
+    | .ok g, .ok (d, m) => s!"ok {hx g} {d} {m}"
+    | .ok _, r => showR (fun (_ : Nat × Nat) => "") r
+    | r, _ => showR hx r)
+  | "QV" => showR (fun (_ : Unit) => "") (validateQuery k s)
+  | "WF" => predictWF k "SetWorkflowData" s
+  | "WG" => predictWF k "set_workflow_data" s
   | "GQ" => showR hxList (grlParseQueries k s)
   | "A" => showR showAgg (parseAggregate k s)
   | "NH" => showR (fun (b : Bool) => if b then "1" else "0") (hasNested s)
